@@ -127,6 +127,7 @@ func runRange(ck Check, id, tier string, seed int64, pp **proc, lo, hi int64, fo
 		req, _ := json.Marshal(rangeReq{Lo: lo, Hi: hi, Mark: mark, Poison: poison})
 		p.in.Write(append(req, '\n'))
 		lastAT := ""
+		lastUnit := lo
 		hang := ""
 		var res *rangeRes
 		for {
@@ -140,7 +141,13 @@ func runRange(ck Check, id, tier string, seed int64, pp **proc, lo, hi int64, fo
 					}
 					res = &r
 				case bytes.HasPrefix(line, []byte("AT ")):
-					json.Unmarshal(bytes.TrimSpace(line[3:]), &lastAT)
+					var at struct {
+						Unit int64
+						Desc string
+					}
+					if json.Unmarshal(bytes.TrimSpace(line[3:]), &at) == nil {
+						lastAT, lastUnit = at.Desc, at.Unit
+					}
 				case bytes.HasPrefix(line, []byte("HANG ")):
 					hang = string(bytes.TrimSpace(line[5:]))
 				}
@@ -163,9 +170,12 @@ func runRange(ck Check, id, tier string, seed int64, pp **proc, lo, hi int64, fo
 		p.in.Close()
 		*pp = nil
 		if hang != "" {
-			var h struct{ Desc, Site string }
+			var h struct {
+				Desc, Site string
+				Unit       int64
+			}
 			json.Unmarshal([]byte(hang), &h)
-			extra = append(extra, Failure{Clause: "cpu-budget", Site: h.Site, Features: feat(h.Desc), Case: h.Desc, Detail: "case exceeded its CPU budget", Unit: lo})
+			extra = append(extra, Failure{Clause: "cpu-budget", Site: h.Site, Features: feat(h.Desc), Case: h.Desc, Detail: "case exceeded its CPU budget", Unit: h.Unit})
 			poison = append(poison, h.Desc)
 			continue
 		}
@@ -177,7 +187,7 @@ func runRange(ck Check, id, tier string, seed int64, pp **proc, lo, hi int64, fo
 			return rangeRes{}, extra, fmt.Errorf("worker died outside any guarded case on range [%d,%d): %s", lo, hi, firstLines(stderr, 12))
 		}
 		clause, site, msg := classifyFatal(stderr)
-		extra = append(extra, Failure{Clause: clause, Site: site, Features: feat(lastAT), Case: lastAT, Detail: msg, Unit: lo})
+		extra = append(extra, Failure{Clause: clause, Site: site, Features: feat(lastAT), Case: lastAT, Detail: msg, Unit: lastUnit})
 		poison = append(poison, lastAT)
 	}
 	return rangeRes{}, extra, fmt.Errorf("too many worker deaths on range [%d,%d)", lo, hi)
